@@ -845,7 +845,8 @@ pub fn generate(tier: &str, r: &mut Rng, emit: &mut dyn FnMut(Case)) {
     // ---- lexsort_to_indices over 1..=4 columns (5 in thorough), heap path (limit <= n/10) and sort path
     let lex_types: Vec<Ty> = { let mut v = cmp_types(); v.retain(|t| !matches!(t, Ree(_))); v };
     for rep in 0..(40 * scale) {
-        let kcols = 1 + r.below(if thorough { 5 } else { 4 });
+        // 2..=5 columns use the fixed-size comparator, 1 (unsortable type) and >= 6 the dynamic one
+        let kcols = 1 + r.below(6);
         let n = if rep % 4 == 0 { r.below(9) } else { *r.pick(&[10usize, 11, 20, 30, 40, 48]) };
         let mut cols: Vec<(Ty, Vec<OV>)> = Vec::new();
         for c in 0..kcols {
